@@ -264,6 +264,22 @@ def run(A, R: Report, thorough: bool):
         R.check(first_private, 'R02.4', 'AutoParameterObject.repr: stored argument', key_of('private-first', first_private), '`self._<arg>` is consulted before `self.<arg>`',
                 'the public attribute `self.<arg>` is consulted before the stored `self._<arg>`: an object that exposes a derived view under the argument\'s name (a Path built from a placeholder string, a frozenset) puts the derived, environment-dependent value into the key',
                 where=where(K.f_apo))
+    # the same on the value term (the lookup may sit in a helper, or be a search over the two attribute names)
+    def _is_private(x):
+        return x[0] == 'cat' and len(x[1]) >= 2 and x[1][0] == ('lit', '_')
+
+    def _has(c):
+        return c[0] == 'call' and c[1] == 'hasattr' and len(c[2]) == 2 and c[2][0] == ('self',)
+    wrong_order = []
+    for x in dag_nodes(K.APO):
+        if x[0] == 'cond' and _has(x[1]) and not _is_private(x[1][2][1]):
+            later_private = [y for y in dag_nodes(x[3]) if (_has(y) and _is_private(y[2][1])) or (y[0] == 'call' and y[1] == 'getattr' and len(y[2]) >= 2 and y[2][0] == ('self',) and _is_private(y[2][1]))]
+            if later_private:
+                wrong_order.append(pretty(x[1]))
+    if not (priv and pub):
+        R.check(not wrong_order, 'R02.4', 'AutoParameterObject.repr: stored argument', key_of('private-first-term', not wrong_order), '`self._<arg>` is consulted before `self.<arg>`',
+                f'the value of an __init__ argument is taken from `self.<arg>` when it exists (`{wrong_order[0][:60] if wrong_order else ""}`) and from the stored `self._<arg>` only otherwise: an object that exposes a derived view under the argument\'s name '
+                '(a Path built from a placeholder string) puts the substituted value into the key', where=where(K.f_apo))
     fv = K.f_apo.cls.lookup('ignore_persistence_args')
     R.check(fv is not None and "'verbose'" in src(fv.node), 'R02.4', 'AutoParameterObject.ignore_persistence_args', key_of('ignored-default'), 'verbose/debug ignored by default', 'default ignored arguments changed', where=where(fv) if fv else None)
 
